@@ -23,7 +23,7 @@ func init() {
 			"(slot boundaries, their neighbours, the domain extremes), TimeslotToUnix returns a term that equals G + 300*s for every s up to (2^32-1)/300 (the no-overflow bound) and their composition returns the start of the same slot; " +
 			"the acceptance-window comparison gives the mathematical answer for all 32-bit timeslot and clock values (shared with C01); CADENCE the rotation loop's trigger predicate is 'now - offset > T' evaluated in int64, the catch-up loop continues while now - offset >= 4000, " +
 			"and with T, the production check period ReportMigrationFrequency/300s and the half-width 432: T + period + 432 < 4032. " +
-			"NOT decided: monotonicity and round-trip as theorems over all inputs (they follow from exact integer division; the checker establishes exactness on the partition cells, not the lemma); the behaviour of the system clock.",
+			"the refusal guard of UnixToTimeslot is evaluated up to G+2^32-1 (no narrower intermediate type); the periodic loop evaluates the trigger before it sleeps. NOT decided: monotonicity and round-trip as theorems over all inputs (they follow from exact integer division; the checker establishes exactness on the partition cells, not the lemma); the behaviour of the system clock.",
 		Assumptions: append([]string{"time.Now().Unix() is the system clock in seconds"}, baseAssumptions...),
 		Run:         runC20,
 	})
@@ -157,7 +157,7 @@ func runC20(c *an.Ctx) {
 			}
 			return m
 		}())
-		for _, d := range []int64{-1000000, -301, -300, -1, 0, 1, 299, 300} {
+		for _, d := range []int64{-1000000, -301, -300, -1, 0, 1, 299, 300, 1<<31 - 1, 1 << 31, 1<<31 + 300, 1<<32 - 301, 1<<32 - 1} {
 			t := new(big.Int).Add(G, big.NewInt(d))
 			got, err := an.EvalFacts(rel, env(map[string]*big.Int{tParam.Key(): t}), p.IntBits)
 			nPts++
@@ -327,6 +327,17 @@ func cadence(c *an.Ctx) {
 			continue
 		}
 		if inLoop {
+			// the periodic loop checks first and sleeps afterwards: the check is not delayed by one whole period after
+			// start-up (the catch-up only guarantees now - offset < 4000)
+			sleepFirst := false
+			for _, b := range caller.Blocks {
+				for _, in := range b.Instrs {
+					if call, ok := in.(*ssa.Call); ok && strings.HasSuffix(an.CalleeName(&call.Call), "ThreadGroup).Sleep") && an.Dominates(call, site) {
+						sleepFirst = true
+					}
+				}
+			}
+			c.Check(!sleepFirst, "CADENCE", caller, site.Pos(), an.KeyOf(caller, "check-before-sleep"), "every round of the periodic loop evaluates the rotation trigger before it sleeps (the first check happens right after start-up, so the cadence inequality covers the first period too)", "a tg.Sleep call dominates the rotation trigger")
 			trigger = thr - 1 // guard holds from thr on: now - offset > thr-1
 			c.Check(trigger == 3200, "CADENCE", caller, site.Pos(), key, "the periodic loop rotates when now - offset > 3200 (int64 arithmetic, no wrap-around at the uint32 extremes)", fmt.Sprintf("guards hold exactly for now - offset >= %d; %s", thr, factsText(rel)))
 		} else {
